@@ -386,6 +386,7 @@ pub fn run(args: &Args) {
     for i in 0..nv {
         all_types(&mut cx, &mut rng, 0);
         if i % 12 == 0 { all_types(&mut cx, &mut rng, 1); }
+        if i % 5 == 0 { intvec::tight_tail_case::<u64>(&mut cx, &mut rng, 40); intvec::tight_tail_case::<i64>(&mut cx, &mut rng, 40); }
         if i % 175 == 3 { all_types(&mut cx, &mut rng, 2); }
         sorted::gen_sorted(&mut cx, &mut rng, i);
         sorted::gen_sorted(&mut cx, &mut rng, i + 1);
